@@ -476,6 +476,133 @@ def trig_cur(o, pre, st):
     return o['kind'] == 'curnum' and st['out'] != '0'
 
 
+
+# ------------------------------------------------------------------ C16 (custom runner)
+def gen_pairs(tier, rnd):
+    """(base, new) pairs: tiny, identical, unrelated, structured edits, repeated blocks, sizes crossing
+    the 4096 / 8192 / 65536 buffer sizes; base is never empty"""
+    pairs = []
+    rb = lambda n: bytes(rnd.randrange(256) for _ in range(n))
+
+    def edits(b, k):
+        b = bytearray(b)
+        for _ in range(k):
+            pos = rnd.randrange(len(b) + 1)
+            op = rnd.randrange(3)
+            if op == 0:
+                b[pos:pos] = rb(rnd.randrange(1, 40))
+            elif op == 1:
+                del b[pos:pos + rnd.randrange(1, 40)]
+            else:
+                b[pos:pos + rnd.randrange(1, 20)] = rb(rnd.randrange(1, 20))
+        return bytes(b)
+    sizes = [1, 2, 7, 31, 100, 1000, 4095, 4096, 4097, 8191, 8192, 8193, 12000, 20000]
+    if tier == 'thorough':
+        sizes += [65535, 65536, 65537, 131072, 200000]
+    for n in sizes:
+        base = rb(n)
+        pairs.append(('ident%d' % n, base, base))
+        pairs.append(('edit%d' % n, base, edits(base, 1 + n // 2000)))
+        pairs.append(('unrel%d' % n, base, rb(max(0, n + rnd.randrange(-5, 6)))))
+        pairs.append(('empty%d' % n, base, b''))
+        pairs.append(('prefix%d' % n, base, base[:n // 2] + rb(n // 3 + 1)))
+        pairs.append(('suffix%d' % n, base, rb(n // 3 + 1) + base[n // 2:]))
+        blk = rb(max(1, min(64, n // 4 + 1)))
+        pairs.append(('rep%d' % n, blk * (n // len(blk) + 1), blk * (n // len(blk) + 3) + base[:5]))
+        pairs.append(('grow%d' % n, base, base + rb(n)))
+        pairs.append(('shrink%d' % n, base, base[n // 3:n // 3 + n // 4]))
+    for i in range(20 if tier == 'quick' else 300):
+        n = rnd.choice([1, 3, 50, 500, 5000, 9000])
+        base = rb(n)
+        pairs.append(('rnd%d' % i, base, edits(base, rnd.randrange(0, 8))))
+    return pairs
+
+
+def run_C16(pid, tier, seed, model_ok=True):
+    import hashlib
+    from concurrent.futures import ThreadPoolExecutor
+    rnd = random.Random(seed)
+    work = os.path.join(CACHE, 'work-C16-%d' % os.getpid())
+    os.makedirs(work, exist_ok=True)
+    pairs = gen_pairs(tier, rnd)
+    big = []
+    if tier == 'thorough':
+        for n in (1 << 20, 3 << 20):
+            base = bytes(rnd.randrange(256) for _ in range(4096)) * (n // 4096)
+            new = bytearray(base)
+            for _ in range(50):
+                pos = rnd.randrange(len(new)); new[pos:pos + 10] = bytes(rnd.randrange(256) for _ in range(17))
+            big.append(('big%d' % n, base, bytes(new)))
+    fails, divs, extras, samples = [], [], [], []
+    evals = 0
+    distinct = set()
+
+    def one(item):
+        name, base, new = item
+        d = os.path.join(work, name)
+        os.makedirs(d, exist_ok=True)
+        open(os.path.join(d, 'b'), 'wb').write(base)
+        open(os.path.join(d, 'n'), 'wb').write(new)
+        subprocess.run([UVH, 'mkpatch', os.path.join(d, 'b'), os.path.join(d, 'n'), os.path.join(d, 'p')], check=True, capture_output=True)
+        ms = subprocess.run([UVH, 'matches', os.path.join(d, 'b'), os.path.join(d, 'n')], check=True, capture_output=True, text=True).stdout.split('\n')
+        ms = [m.strip().replace(' ', '.') for m in ms if m.strip()]
+        dl = open(os.path.join(d, 'p.patch'), 'rb').read()
+        raw = open(os.path.join(d, 'p.raw'), 'rb').read()
+        h = hashlib.sha256(new).hexdigest()
+        small = len(base) <= 300000 and len(new) <= 300000
+        lines = ['blob base %s' % base.hex(), 'blob new %s' % (new.hex() or 'e'), 'blob raw %s' % raw.hex(), 'blob dl %s' % dl.hex(),
+                 'zdec @dl @raw', 'base @base']
+        if small and model_ok:
+            lines += ['wfm @base @new %s' % (','.join(ms) or '-'), 'sdiff @base @new %s' % (','.join(ms) or '-'), 'applypatch @base @raw']
+        lines += ['history ' + name, op_init(), 'op update - %s @dl' % resp(True, (1, h, 'http://dl/1', None), None), 'op nextpath', 'op nextnum']
+        f = os.path.join(d, 'x.ops')
+        open(f, 'w').write('\n'.join(lines) + '\n')
+        mo = subprocess.run(['bash', '-c', 'ulimit -s unlimited; exec "$0" "$1"', DRIVER, f], capture_output=True, text=True) if (small and model_ok) else None
+        im = subprocess.run([UVH, 'replay', f, os.path.join(d, 'w')], capture_output=True, text=True)
+        shutil.rmtree(d, ignore_errors=True)
+        return name, base, new, raw, ms, mo, im, lines
+
+    with ThreadPoolExecutor(max_workers=NPROC) as ex:
+        results = list(ex.map(one, pairs + big))
+    for name, base, new, raw, ms, mo, im, lines in results:
+        evals += 1
+        header = [l for l in lines if not l.startswith('op ') and not l.startswith('history ')]
+        ops = [l for l in lines if l.startswith('op ')]
+        distinct.add((len(base), len(new), len(ms)))
+        itr = [l for l in im.stdout.splitlines() if l.startswith('out=')]
+        if im.returncode != 0 or len(itr) != 4:
+            extras.append('implementation run failed for %s: rc=%d %s' % (name, im.returncode, im.stderr[-300:]))
+            continue
+        st = [parse_line(l) for l in itr]
+        want = art_tag(new)
+        if st[1]['out'] != '1' or st[1]['arts'].get(1) != want or st[2]['out'] != 'path:1':
+            fails.append((name, 1, 'C16: patch built by the tool for (%d -> %d bytes) did not install back to the new binary: status %s artifact %s expected %s' % (
+                len(base), len(new), st[1]['out'], st[1]['arts'].get(1), want), ops, header))
+        if mo is not None:
+            if mo.returncode != 0:
+                extras.append('model run failed for %s: %s' % (name, mo.stderr[-300:]))
+                continue
+            out = mo.stdout.splitlines()
+            kv = dict(l.split('=', 1) for l in out if '=' in l and not l.startswith('out='))
+            mtr = [l for l in out if l.startswith('out=')]
+            if kv.get('wfm') != 'true':
+                divs.append((name, 0, 'wf_matches = %s on the matches bidiff emitted' % kv.get('wfm'), 'matches: %s' % ms[:5], ops, header))
+            if kv.get('sdiff') != '%d.%s' % (len(raw), hashlib.sha256(raw).hexdigest()):
+                divs.append((name, 0, 'model writer output %s' % kv.get('sdiff'), 'real bidiff stream %d.%s' % (len(raw), hashlib.sha256(raw).hexdigest()), ops, header))
+            if kv.get('apply') != 'ok:%d.%s' % (len(new), hashlib.sha256(new).hexdigest()):
+                divs.append((name, 0, 'model apply_patch gives %s' % kv.get('apply'), 'new binary %d.%s' % (len(new), hashlib.sha256(new).hexdigest()), ops, header))
+            for i, (a, b) in enumerate(zip(mtr, itr)):
+                if a != b:
+                    divs.append((name, i, a, b, ops, header))
+                    break
+        if len(samples) < 5 and name.startswith(('edit', 'rep', 'big')):
+            samples.append({'pair': name, 'base_len': len(base), 'new_len': len(new), 'matches': len(ms), 'patch_len': len(raw)})
+    shutil.rmtree(work, ignore_errors=True)
+    return dict(evaluations=evals, distinct=len(distinct), samples=samples, divergences=divs, monitor_fail=fails,
+                rule='(base,new) pairs: identical / edited / unrelated / empty target / shared prefix or suffix / repeated blocks / grow / shrink at sizes crossing 4096, 8192 (and 65536, MiB in thorough); tool make_patch -> library update installs -> artifact == new; model: wf_matches on real matches, model writer == real bidiff bytes, model reader == new; non-trivial = distinct (|base|,|new|,#matches)',
+                dist={'pairs': evals}, extras=extras, traces=evals)
+
+
 def mk(build, mons, trig, rule, **kw):
     d = dict(mons=mons, run=lambda pid, tier, seed, model_ok=True: run_lifecycle(pid, tier, seed, build, mons, trig, rule, model_ok=model_ok))
     d.update(kw)
@@ -483,6 +610,8 @@ def mk(build, mons, trig, rule, **kw):
 
 
 PROPS = {
+    'C16': dict(mons=[], run=run_C16,
+                assumptions=['zstd compress/decompress round trip is an oracle (hypothesis of C16_end_to_end); the suffix-array match search is covered only through wf_matches of what it emits']),
     'C03': mk(build_C03, [monitors.mon_C03, monitors.mon_C01], trig_life,
               'exhaustive depth-k continuations of 7 lifecycle prefixes over {query,start,ok,fail,restart,install 1/2/3,rollbacks,check,damage} + random walks (re-install of same number, multi-rollback, junk dirs); non-trivial = distinct (state with a selection or last good patch, state-changing op)'),
     'C09': mk(build_C09, [monitors.mon_C09, monitors.mon_healthy], trig_life,
